@@ -61,7 +61,7 @@ def run_untrusted(v, wd, exe, seed, tier, focus):
     # ignored packets, streams cut inside values) next to zero-width records
     import c03, materialize
     enc = {c["name"]: c for c in c03.encoder_cases(wd, False)}
-    for nm in ("s1-25", "s3-43", "s2-40", "w1-43"):
+    for nm in ("s1-25", "s3-43", "s2-40", "w1-43") + (("s1-37", "s4ok-34", "s3-19", "w2-34", "s2-16") if tier == "thorough" else ()):
         if nm in enc:
             img, _scene = materialize.build_file([enc[nm]], v=0, guid="enc-" + nm)
             fp = os.path.join(wd, f"encbase_{nm}.e57")
